@@ -326,6 +326,14 @@ public:
   int64_t i(const char * name, int64_t lo, int64_t hi)
   {
     if (mode == REPLAY) {
+      if (pos >= tape.size()) {
+        // an older tape replayed by a harness that has since gained integer draws at the end of its sequence
+        // (flags / picks selecting additional checks): they default to their lower bound, the first alternative
+        fprintf(stderr, "note: tape ends before draw '%s'; using its lower bound %" PRId64 "\n", name, lo);
+        tape.push_back(Entry{intern(name), 'i', lo, 0.0});
+        pos = tape.size();
+        return lo;
+      }
       const Entry & e = nextEntry(name, 'i');
       if (e.i < lo || e.i > hi) {
         throw ReplayMismatch{fmt("tape value %s=%" PRId64 " outside [%" PRId64 ",%" PRId64 "]", name, e.i, lo, hi)};
